@@ -211,10 +211,43 @@ def frm_frames(case):
     names = GNAMES if case["kind"] == "g" else FNAMES
     ncol = len(case["rows"][0])
     pperm = case.get("pperm") or list(range(len(case["keys"])))
-    pk = [tuple(case["keys"][i]) for i in pperm]
+    entries = [(tuple(case["keys"][i]), list(case["rows"][i])) for i in pperm if i != case.get("drop")]
+    for j, (k, r) in enumerate(case.get("surplus") or []):       # diagrams no cycle refers to: ignored by the code
+        entries.insert(min(2 * j + 1, len(entries)), (tuple(k), list(r)))
+    pk = [e[0] for e in entries]
     pidx = pd.Index([k[0] for k in pk], name=knames[0]) if len(knames) == 1 else pd.MultiIndex.from_tuples(pk, names=knames)
-    par = pd.DataFrame([case["rows"][i] for i in pperm], columns=names[:ncol], index=pidx, dtype=float)
+    par = pd.DataFrame([e[1] for e in entries], columns=names[:ncol], index=pidx, dtype=float)
     return df, par, labels
+
+
+def frm_missing(case):
+    """A key of the collective has no parameter row: HaighDiagram.transform refuses (ValueError 'No Haigh diagram')."""
+    return case.get("drop") is not None
+
+
+def mat_missing(case):
+    """Some class of the matrix has a key of the levels it shares with the parameter frame that the frame lacks."""
+    case = upgrade_mat(case)
+    ser, names, enames = matrix_of(case)
+    _, plevels, pmap = mat_param(case)
+    shared = [n for n in plevels if n in enames]
+    if not shared or len(ser) == 0:
+        return False
+    have = {tuple(k[plevels.index(n)] for n in shared) for k in pmap}
+    vals = [ser.index.get_level_values(n).to_numpy() for n in shared]
+    need = {tuple(v[i].item() for v in vals) for i in range(len(ser))}
+    return not need <= have
+
+
+def expects_no_diagram(fn):
+    """Runs fn(); None if it raises the documented ValueError, else a description."""
+    try:
+        fn()
+    except ValueError as e:
+        if "No Haigh diagram" in str(e):
+            return None
+        return f"cycles without a Haigh diagram: ValueError with another message: {str(e)[:200]}"
+    return "cycles without a Haigh diagram were not refused (the result cannot be their transformation)"
 
 
 def frm_diag(case, i):
@@ -479,6 +512,15 @@ class C12(Prop):
         "ab50530 (C12-matrix-row-order, superseded by ef4f38d), ef4f38d (C12-matrix-index-layout), 9e46386 (C12-goodman-default-M2-keeps-operand) "
         "and 3b0f832 (C12-five-segment-row-pairing); all of them are committed",
         "C12: the mean classes of the matrix result (means_bins) are checked by the oracle (every class on the target ray), not by the model",
+        "C12: a matrix class whose amplitude is below 1e-9 of its mean / of the largest range (from- and to-mid equal up to rounding) rounds to "
+        "R = 1.0 exactly - the cycle of amplitude 0, outside the quantifier; the oracle does not compare interfaces on it (the class sums and the "
+        "model correspondence still cover it)",
+        "C12: LoadHistogram.R still computes lower / upper without the '+ 0.0' of LoadCollective.R (c28a67e): upper = mean + amplitude is -0.0 only "
+        "if both summands are -0.0, i.e. never for amplitude > 0, so the model's cycR (either zero counts as +0.0) agrees with it on the quantifier",
+        "C12: since 226f5ce a collective / matrix key without a row in the parameter frame is refused (ValueError 'No Haigh diagram'; checked by "
+        "the oracle, no model counterpart) and surplus parameter rows are ignored (generated); five_segment is called with an unnamed parameter "
+        "Series or a frame with integer / tuple labels - a Series with a name (KeyError: 0 from haigh.xs(0)), a string label of a one-level index "
+        "and an empty frame raise in the unchanged code and are not generated",
     ]
 
     def __init__(self):
@@ -486,7 +528,7 @@ class C12(Prop):
                       "targets": {"-inf": 0, "gt1": 0, "le0": 0, "0..1": 0},
                       "border_cycles": 0, "neginf_cycles": 0, "beyond1_cycles": 0, "negzero_upper_cycles": 0, "default_M2_cases": 0,
                       "two_goal_cases": 0, "guard_skipped": 0, "frm_layouts": {}, "frm_keys": 0,
-                      "mat_layouts": {}, "mat_params": {}, "mat_orders": {}, "mat_classes_total": 0, "mat_empty": 0, "oracle_checks": 0,
+                      "mat_layouts": {}, "mat_params": {}, "mat_orders": {}, "mat_classes_total": 0, "mat_empty": 0, "oracle_checks": 0, "refused_cases": 0, "surplus_diagram_cases": 0, "noise_amplitude_classes": 0,
                       "split_known_mechanism": 0}
         self.exhaustive = False
 
@@ -505,6 +547,14 @@ class C12(Prop):
         ["d", [1.0, "inf", 0.0, "-inf", 1.0, 0.25]],
     ]
     DICT_SPLIT = ["d", [1.0, 2.0, 0.1, 2.0, "inf", 0.2, "-inf", 0.0, 0.3, 0.0, 1.0, 0.1]]
+
+    @staticmethod
+    def rotations(diag):
+        """The admissible listings of a from_dict diagram: HaighDiagram._validate wants every segment to start where the one listed
+        before it ends ((-inf, b] may follow (1, inf]), i.e. the rotations of the ascending order.  The sort keys of (1,inf] and
+        (-inf,b] tied before 1ef2d1a, so a result could depend on which of the two is listed first."""
+        tr = sorted((diag[1][i:i + 3] for i in range(0, len(diag[1]), 3)), key=lambda t: dec(t[0]))
+        return [["d", [x for t in tr[k:] + tr[:k] for x in t]] for k in range(len(tr))]
 
     def borders(self, diag):
         kind, p = diag
@@ -589,6 +639,8 @@ class C12(Prop):
             diag = json.loads(json.dumps(rng.choice(self.DICTS)))
         else:
             diag = json.loads(json.dumps(self.DICT_SPLIT))
+        if diag[0] == "d" and rng.random() < 0.6:
+            diag = self.rotations(diag)[rng.randrange(len(diag[1]) // 3)]
         goals = [self.gen_goal(rng, diag)]
         if rng.random() < 0.5:
             goals.append(self.gen_goal(rng, diag))
@@ -644,8 +696,17 @@ class C12(Prop):
         pperm = list(range(len(keys)))
         if rng.random() < 0.7:
             rng.shuffle(pperm)
-        return {"k": "frm", "kind": kind, "layout": layout, "keys": keys, "rows": rows, "goal": enc(goal), "iface": iface,
+        case = {"k": "frm", "kind": kind, "layout": layout, "keys": keys, "rows": rows, "goal": enc(goal), "iface": iface,
                 "order": order, "cyc": cyc, "perm": perm, "pperm": pperm}
+        c = rng.random()
+        if c < 0.25:          # diagrams no cycle refers to (ignored)
+            sk = [[9999] if len(keys[0]) == 1 else [keys[0][0], "zz"]]
+            if c < 0.08 and len(keys[0]) == 1:
+                sk.append([-5])
+            case["surplus"] = [[k, [0.9 * v for v in rows[i % len(rows)]] if kind == "g" else list(rows[i % len(rows)])] for i, k in enumerate(sk)]
+        elif c < 0.31:        # a key of the collective without diagram (refused)
+            case["drop"] = rng.randrange(len(keys))
+        return case
 
     def gen_breaks(self, rng, lo, w, n, uniform):
         if uniform:
@@ -688,10 +749,10 @@ class C12(Prop):
             counts[rng.randrange(ncell)] = 7.0
         ne = int(np.prod(extras)) if extras else 1
         if any(counts):
-            # every key of the further levels keeps an occupied class (a parameter-frame key that is absent from the signal is the
-            # Broadcaster's business - C13 -, it raises IndexError in the collective accessor as well)
+            # (since 226f5ce HaighDiagram.transform ignores diagrams no cycle refers to and refuses cycles without diagram)
+            keep_all = rng.random() < 0.7       # else a key may have no occupied class: with nonzero_only its diagram is surplus (ignored)
             for e in range(ne):
-                if not any(counts[e::ne]):
+                if keep_all and not any(counts[e::ne]):
                     counts[e + ne * rng.randrange(ncell // ne)] = float(rng.randrange(1, 9))
         # parameters
         evals = [[7 * i + 3 for i in range(n)] for n in extras]
@@ -721,6 +782,12 @@ class C12(Prop):
             keys = [[v] for v in rng.sample([1, 2, 5, 11], rng.choice([1, 2, 3]))]
             par = {"levels": ["element_id"], "keys": keys}
             nrows = len(keys)
+        if pk in ("frame", "frame-sub") and rng.random() < 0.25:
+            par["keys"].insert(rng.randrange(nrows + 1), [99] * len(par["levels"]))      # a diagram no class refers to
+            nrows += 1
+        if pk in ("frame", "frame-sub") and rng.random() < 0.06 and nrows > 1:
+            par["keys"].pop(rng.randrange(len(par["keys"])))                             # (possibly) a class without diagram: refused
+            nrows -= 1
         rows, seen = [], set()
         while len(rows) < nrows:
             M, M2 = rng.choice(self.GOODMAN) if rng.random() < 0.7 else (lambda M: (M, round(rng.uniform(0.0, M), 3)))(round(rng.uniform(0.0, 0.95), 3))
@@ -734,7 +801,7 @@ class C12(Prop):
                 "par": par, "rows": rows, "nonzero_only": rng.random() < 0.4, "shuffle": rng.randrange(1 << 30) if rng.random() < 0.4 else None}
 
     def generate(self, rng, tier):
-        n_cyc, n_frm, n_mat = (120, 32, 40) if tier == "quick" else (1200, 300, 350)
+        n_cyc, n_frm, n_mat = (180, 50, 60) if tier == "quick" else (1700, 450, 500)
         cases = []
         # systematic grid: every Goodman / five-segment parameter set x structured targets x structured cycles
         for diag in [["g", list(p)] for p in self.GOODMAN[:4]] + [["g", [0.45]]] + [["f", list(p)] for p in self.FIVE[:3]]:
@@ -745,6 +812,13 @@ class C12(Prop):
             cyc += [[2.0, -3.0], [2.0, -1.5], [1.0, 6.0]]
             for g in targets:
                 cases.append({"k": "cyc", "diag": diag, "goals": [enc(g)], "iface": "rm", "cyc": cyc})
+        # from_dict diagrams: every listing order of the segments x targets of every region (the sort keys of (1,inf] and (-inf,b]
+        # tied before 1ef2d1a: the result for a goal in (0,1) depended on which was listed first)
+        for base in self.DICTS[:1] + [self.DICTS[2]]:
+            for d in self.rotations(base):
+                for g in (0.3, -INF):
+                    cases.append({"k": "cyc", "diag": d, "goals": [enc(g)], "iface": "rm",
+                                  "cyc": [[1.0, -10.0], [2.0, -1.0], [2.0, 0.5], [2.0, 7.0], [2.0, -2.5]]})
         # upper load -0.0 in a from/to frame, every target region
         for g in (-INF, -1.0, 0.0, 0.5, 2.0):
             cases.append({"k": "cyc", "diag": ["g", [0.3, 0.1]], "goals": [enc(g)], "iface": "ft",
@@ -789,8 +863,12 @@ class C12(Prop):
         if case["k"] == "cyc":
             return [self._mst_line(case["iface"], case["diag"], case["goals"], case["cyc"])]
         if case["k"] == "frm":       # the model is per cycle: one line per key with that key's parameters
+            if frm_missing(case):
+                return []
             return [self._mst_line(case["iface"], frm_diag(case, i), [case["goal"]], cyc) for i, cyc in enumerate(case["cyc"])]
         case = upgrade_mat(case)
+        if mat_missing(case):
+            return []
         names, rnames, rkeys, cells, binsize = mat_cells(case)
         if not cells:
             return []
@@ -831,6 +909,9 @@ class C12(Prop):
             frame = run_chain(case["diag"], case["iface"], case["cyc"], case["goals"])[-1]
             amp = frame.load_collective.amplitude.to_numpy()
             return [" ".join(f"{f2h(a)} {f2h(r)} {f2h(m)}" for a, r, m in zip(amp, frame["range"].to_numpy(), frame["mean"].to_numpy()))]
+        if case["k"] == "frm" and frm_missing(case):
+            s["refused_cases"] += 1
+            return []
         if case["k"] == "frm":
             s["frm_cases"] += 1
             s["frm_keys"] += len(case["keys"])
@@ -847,6 +928,9 @@ class C12(Prop):
                 out.append(" ".join("{} {} {}".format(*map(f2h, got[tuple(key) + (j,)])) for j in range(len(cyc))))
             return out
         case = upgrade_mat(case)
+        if mat_missing(case):
+            s["refused_cases"] += 1
+            return []
         names, rnames, rkeys, cells, binsize = mat_cells(case)
         ser, _, enames = matrix_of(case)
         if not cells:
@@ -1099,6 +1183,10 @@ class C12(Prop):
         g = dec(case["goal"])
         df, par, labels = frm_frames(case)
         df0, par0 = df.copy(), par.copy()
+        if frm_missing(case):
+            d = expects_no_diagram(lambda: frm_call(case, df, par))
+            return None if d is None else (d, "C12")
+        self.stats["surplus_diagram_cases"] += bool(case.get("surplus"))
         lc = frm_call(case, df, par)
         if list(par.columns) != list(par0.columns) or not par.equals(par0):
             return (f"the accessor modified the caller's parameter frame: columns {list(par0.columns)} -> {list(par.columns)}", "default-M2-writes-operand")
@@ -1140,6 +1228,9 @@ class C12(Prop):
         _, rnames, rkeys, cells, binsize = mat_cells(case)
         par, plevels, pmap = mat_param(case)
         goal = case["goal"]
+        if mat_missing(case):
+            d = expects_no_diagram(lambda: ser.meanstress_transform.fkm_goodman(par, goal))
+            return None if d is None else (d, "C12")
         if cells and max(c[2] for c in cells) <= 0:
             return None      # only cycles of amplitude 0: outside the property's quantifier (the code returns an empty result)
         ser0 = ser.copy()
@@ -1184,9 +1275,17 @@ class C12(Prop):
                 vals = dict(zip(tr.index.get_level_values("i"), tr.to_numpy()))
                 one[live] = [vals[i] for i in range(len(rows_))]
                 plain = 2.0 * M.fkm_goodman(amp[live], mean[live], Mk, M2k, goal)
-                for x, y in zip(one[live], plain):
-                    if not close(x, y, 1e-9, float(2.0 * amp.max())):      # class mids can be rounding noise (|from - to| of equal mids)
-                        return (f"key {k}: histogram route {x} vs plain function {y}", "C12")
+                # A class whose from- and to-mid coincide up to rounding (|from - to| = 1 ulp of the mids, e.g. 0.5 vs
+                # 0.5000000000000001) has amplitude "> 0" only formally: mean -/+ amplitude round to the mean, R = 1.0 exactly, i.e. the
+                # cycle of amplitude 0 at R = 1 that is outside the property's quantifier.  Both routes are then arbitrary (and differ);
+                # the class sums below still have to be those of the code's own value.
+                scale = float(max(2.0 * amp.max(), np.abs(mean).max()))
+                for x, y, a_, m_ in zip(one[live], plain, amp[live], mean[live]):
+                    if a_ <= 1e-9 * max(abs(m_), scale):
+                        self.stats["noise_amplitude_classes"] += 1
+                        continue
+                    if not close(x, y, 1e-9, scale):
+                        return (f"key {k}: histogram route {x} vs plain function {y} (amplitude {a_}, mean {m_})", "C12")
             exp = [float(cnt[((one >= iv.left) if iv.left == 0.0 else (one > iv.left)) & (one <= iv.right)].sum()) for iv, _ in by[k]]
             got = [v for _, v in by[k]]
             if exp != got:
